@@ -483,22 +483,41 @@ func (s *MemoryStore) evictionsNeededLocked(incoming int) int {
 	return need
 }
 
-// oldestQueuedLocked returns up to n queued item IDs in insertion order
-// without evicting them.
+// oldestQueuedLocked returns up to n queued item IDs, oldest received_at
+// first (insertion order breaks ties), without evicting them. The order slice
+// alone is not a reliable age: it can still hold the slot of a removed item
+// whose ID was enqueued again.
 func (s *MemoryStore) oldestQueuedLocked(n int) []string {
-	out := make([]string, 0, n)
-	for _, id := range s.order {
-		if len(out) >= n {
-			break
-		}
+	type queuedItem struct {
+		id         string
+		receivedAt time.Time
+		pos        int
+	}
+	queued := make([]queuedItem, 0)
+	seen := make(map[string]struct{})
+	for pos, id := range s.order {
 		env := s.items[id]
 		if env == nil || env.State != StateQueued {
 			continue
 		}
-		if containsID(out, id) {
+		if _, dup := seen[id]; dup {
 			continue
 		}
-		out = append(out, id)
+		seen[id] = struct{}{}
+		queued = append(queued, queuedItem{id: id, receivedAt: env.ReceivedAt, pos: pos})
+	}
+	sort.Slice(queued, func(i, j int) bool {
+		if !queued[i].receivedAt.Equal(queued[j].receivedAt) {
+			return queued[i].receivedAt.Before(queued[j].receivedAt)
+		}
+		return queued[i].pos < queued[j].pos
+	})
+	if len(queued) > n {
+		queued = queued[:n]
+	}
+	out := make([]string, 0, len(queued))
+	for _, q := range queued {
+		out = append(out, q.id)
 	}
 	return out
 }
